@@ -209,6 +209,14 @@ def check_restores(ck, cr, R):
     ck.ob(R, "restore_checkpoint|order", order_ok,
           "the ghost counters are assigned from the checkpoint after the transparent restore (which itself adds to them)",
           site=rc.where(calls[0][0]) if calls else rc.where(0), detail={"restore call block": calls[0][0] if calls else None, "assignment blocks": set_blocks})
+    # unconditional: every return of restore_checkpoint is dominated by the restore call and by the three assignments
+    rets = [b for b in rc.reachable_blocks() if rc.term(b)["k"] == "return"]
+    need = ([calls[0][0]] if calls else []) + set_blocks
+    uncond = bool(rets) and bool(need) and all(rc.dominates(n, r) for n in need for r in rets) and \
+        not any(rc.term(b)["k"] == "switch" for b in rc.reachable_blocks())
+    ck.ob(R, "restore_checkpoint|unconditional", uncond,
+          "restore_checkpoint restores on every path (no early return, no condition)", site=rc.where(0),
+          detail={"returns": rets, "branches": [rc.where(b) for b in rc.reachable_blocks() if rc.term(b)["k"] == "switch"]})
     ck.ob(R,"restore_checkpoint|no other effect", len(efs) == 3 and all(e.kind == "ghost-set" for e in efs),
           "restore_checkpoint has no other effect on counted storage", site=rc.where(0), detail=[e.what for e in efs])
     # checkpoint() literal: each ghost field from the same-named counter
